@@ -22,7 +22,7 @@ RELATED = {
     "C16": [("C02", ["C02.R2"])],
     "C21": [("C20", None)],
     "C39": [("C10", ["C10.R4", "C10.R8"])],                                    # the same bitfun helpers: range gates and the rotated immediate
-    "C27": [("C01", ["C01.R5"])],                                              # case labels are constant expressions converted to the (promoted) type of the switch
+    "C27": [("C01", ["C01.R5"]), ("C28", ["C28.R8"])],                                              # case labels are constant expressions converted to the (promoted) type of the switch
     "C22": [("C24", ["C24.R2", "C24.R3", "C24.R4", "C24.R5", "C24.R6"])],                # the Python execution target runs wasm through ir2py's runtime helpers                                                    # the binary format is LEB128 all over
 }
 
